@@ -8,7 +8,7 @@
   `CInv sem s`: the C05 invariant, `Clean` (only a live object with a lock flag of its own memoises), and **`Coherent`**:
   every memoised entry equals what a fresh computation returns now.
 -/
-import TdVerif.Lemmas.C06Events
+import TdVerif.Lemmas.C06Attr
 import TdVerif.Gen.CacheTable
 
 namespace TdVerif.Props.C06
@@ -20,41 +20,26 @@ theorem coherent_transfer (sem : Sem) (s s' : CState)
     (hc : ∀ i, s'.cache i = [] ∨ s'.cache i = s.cache i)
     (hcont : ∀ i, s.cache i ≠ [] → s'.cache i ≠ [] → content s'.heap i = content s.heap i)
     (hobj : ∀ o, IsResult s o → (s'.heap.node o).kids = (s.heap.node o).kids ∧
-      bindings (s'.heap.node o) = bindings (s.heap.node o))
-    (h : Coherent sem s) : Coherent sem s' := by
-  intro i q r hmem
-  have hne' : s'.cache i ≠ [] := fun e => by rw [e] at hmem; cases hmem
-  have heq : s'.cache i = s.cache i := by
-    rcases hc i with x | x
-    · exact absurd x hne'
-    · exact x
-  rw [heq] at hmem
-  have hne : s.cache i ≠ [] := fun e => by rw [e] at hmem; cases hmem
-  have hct := hcont i hne hne'
-  have := h i q r hmem
-  cases r with
-  | value c => simp only at this ⊢; unfold freshValue at this ⊢; rw [hct]; exact this
-  | object o =>
-    simp only at this ⊢
-    obtain ⟨a, b⟩ := hobj o ⟨i, q, hmem⟩
-    rw [hct, a, b]; exact this
+      payload (s'.heap.node o) = payload (s.heap.node o))
+    (h : Coherent sem s) : Coherent sem s' :=
+  TdVerif.C06.coherent_transfer sem s s' hc hcont hobj h
 
-/-- every event of the lock machine that C05 allows (memmap_ apart) keeps the caches coherent, provided it does not
+/-- every event of the lock machine that C05 allows keeps the caches coherent, provided it does not
 restructure a tensordict that a cache would hand out again -/
 theorem base_preserves (sem : Sem) (s : CState) (hinv : CInv sem s) (e : Ev) (hok : Props.C05.EvOk e)
-    (hnm : notMemmap e = true) (hres : ∀ o, o ∈ mutated s.heap e → ¬ IsResult s o) :
+    (hres : ∀ o, o ∈ mutated s.heap e → ¬ IsResult s o) :
     CInv sem (cstep sem s (.base e)).1 := by
   have hI : Inv (step s.base e).1.heap := Props.C05.closed_invariant s.base hinv.inv e hok
   have facts : StepFacts s.heap (step s.base e).1.heap (erasedBy s.base e) (mutated s.heap e) := by
     unfold step
     cases ht : e.target with
-    | none => exact facts_stepLive s.base hinv.inv e hok hnm (fun i hi => by rw [ht] at hi; cases hi)
+    | none => exact facts_stepLive s.base hinv.inv e hok (fun i hi => by rw [ht] at hi; cases hi)
     | some i =>
       simp only
       split
       · rename_i hc
         have hc' : live s.base.heap i = true ∧ i < s.base.heap.size := by simpa using hc
-        exact facts_stepLive s.base hinv.inv e hok hnm (fun j hj => by rw [ht] at hj; cases hj; exact hc')
+        exact facts_stepLive s.base hinv.inv e hok (fun j hj => by rw [ht] at hj; cases hj; exact hc')
       · exact StepFacts.refl _ _ _
   have hcache : (cstep sem s (.base e)).1.cache = eraseMany s.cache (erasedBy s.base e) := rfl
   have hheap : (cstep sem s (.base e)).1.heap = (step s.base e).1.heap := rfl
@@ -321,7 +306,7 @@ theorem rebind_preserves (sem : Sem) (s : CState) (hinv : CInv sem s) (i : Nat) 
         · intro o hr
           have : o ≠ i := fun e => hres (e ▸ hr)
           show ((s.heap.upd i (fun n => bindLeaf n k obj)).node o).kids = (s.heap.node o).kids ∧
-            bindings ((s.heap.upd i (fun n => bindLeaf n k obj)).node o) = bindings (s.heap.node o)
+            payload ((s.heap.upd i (fun n => bindLeaf n k obj)).node o) = payload (s.heap.node o)
           rw [nne o this]; exact ⟨rfl, rfl⟩
     · have hfi' : flagged s.heap i = false := by simpa using hfi
       simp only [hfi', Bool.false_eq_true, if_false]
@@ -349,34 +334,106 @@ theorem rebind_preserves (sem : Sem) (s : CState) (hinv : CInv sem s) (i : Nat) 
         · intro o hr
           have : o ≠ i := fun e => hres (e ▸ hr)
           show ((s.heap.upd i (fun n => bindLeaf n k obj)).node o).kids = (s.heap.node o).kids ∧
-            bindings ((s.heap.upd i (fun n => bindLeaf n k obj)).node o) = bindings (s.heap.node o)
+            payload ((s.heap.upd i (fun n => bindLeaf n k obj)).node o) = payload (s.heap.node o)
           rw [nne o this]; exact ⟨rfl, rfl⟩
   · exact hinv
 
+/-! ## assignments accepted under lock that walk down the tree: metadata, `memmap_` -/
+
+/-- **a metadata assignment under lock keeps the caches coherent** — `td.names = …`, `rename_`, `refine_names`,
+`td.batch_size = …`, `clear_device_()`, `auto_device_()`, on any tensordict of a locked tree and whatever the depth `d` the
+setter walks down: every plain tensordict it visits runs `_erase_cache_up()` (`fix:` batch size, `_erase_names`, device), which
+resets the node and, transitively, every live tensordict that holds it; a lazy stack resets its own cache only
+(`@erase_cache`) and relies on the setters of its members, which it always calls: since a lazy stack of the invariant is not
+empty, each stack visited hands over to a plain tensordict that is visited too (`lazyCovered_of_inv`). A memoised method is
+any function of bindings *and attributes* of the subtree (`content`). -/
+theorem attr_preserves (sem : Sem) (s : CState) (hinv : CInv sem s) (i f v d : Nat) (hl : live s.heap i = true)
+    (hres : ∀ j, j ∈ attrTargets s.heap d i → ¬ IsResult s j) : CInv sem (setAttrEv s i f v d) := by
+  have hcov : lazyCovered s.heap (attrTargets s.heap d i) = true := lazyCovered_of_inv hinv.inv d i
+  have e : setAttrEv s i f v d = (attrTargets s.heap d i).foldl (touch (attrG f v) false) s := by
+    have : (fun acc j => attrTouch acc j f v) = touch (attrG f v) false := by
+      funext acc j; exact attrTouch_eq acc j f v
+    unfold setAttrEv
+    rw [this]
+  rw [e]
+  have hT := touch_fold (attrG_payloadOnly f v) (attrTargets s.heap d i) s _ (Touched.start false s hinv.inv)
+    (attrTargets_live hinv.inv hl)
+  refine cinv_of_touched sem hinv hT (fun o hr hd => ?_) (fun m hd hz _ => ?_)
+  · rcases hd with hd | hd
+    · exact hd
+    · exact hres o hd hr
+  · rcases hd with hd | hd
+    · exact hd.elim
+    · obtain ⟨k, hk, hkz, r⟩ := lazyCovered_spec hcov m hd hz
+      exact ⟨k, .inr hk, hkz, r⟩
+
+/-- the leaf rebinding of `memmap_` alone (before the tree is locked) -/
+theorem memmapLeaves_preserves (sem : Sem) (s : CState) (hinv : CInv sem s) (i : Nat) (news : List ((Nat × String) × Nat))
+    (hl : live s.heap i = true) (hres : ∀ j, j ∈ attrTargets s.heap s.heap.size i → ¬ IsResult s j) :
+    CInv sem (memmapLeaves s i news) := by
+  have e : memmapLeaves s i news = (attrTargets s.heap s.heap.size i).foldl (touch (memmapG news) true) s := by
+    have : memmapTouch news = touch (memmapG news) true := by
+      funext acc j; exact memmapTouch_eq news acc j
+    unfold memmapLeaves
+    rw [this]
+  rw [e]
+  have hT := touch_fold (memmapG_payloadOnly news) (attrTargets s.heap s.heap.size i) s _ (Touched.start true s hinv.inv)
+    (attrTargets_live hinv.inv hl)
+  refine cinv_of_touched sem hinv hT (fun o hr hd => ?_) (fun m _ _ hb => by cases hb)
+  rcases hd with hd | hd
+  · exact hd
+  · exact hres o hd hr
+
+/-- **`memmap_` on a locked tree keeps the caches coherent** (first conversion, or a memory-mapped tree moved to another
+directory with `copy_existing=True`): every plain tensordict of the tree runs `_erase_cache_up()` before its leaves are
+rebound to the memory-mapped tensors (`fix:` memmap_), then `_lock_after_memmap` builds the lock graph, which touches no
+entry. Whatever new objects the leaves are rebound to (`news`). -/
+theorem memmap_preserves (sem : Sem) (s : CState) (hinv : CInv sem s) (i : Nat) (news : List ((Nat × String) × Nat))
+    (hl : live s.heap i = true) (hres : ∀ j, j ∈ attrTargets s.heap s.heap.size i → ¬ IsResult s j) :
+    CInv sem (cstep sem s (.memmap i news)).1 := by
+  have hi := lt_size_of_live hinv.inv hl
+  simp only [cstep, hl, hi, decide_true, Bool.and_self, if_true]
+  have h1 := memmapLeaves_preserves sem s hinv i news hl hres
+  exact base_preserves sem (memmapLeaves s i news) h1 (.viaMemmap i) rfl (fun o ho => by simp [mutated] at ho)
+
 /-! ## the main statements -/
 
-/-- events permitted on the machine: everything C05 allows except `memmap_` (which rebinds every leaf; its cache
-invalidation is a separate `fix:` and is checked by the monitor, not modelled), reads, and rebinding under lock;
+/-- events permitted on the machine: everything C05 allows, reads, rebinding under lock, metadata assignments and `memmap_`;
 none of them may restructure a tensordict that a cache would hand out again (the shared-result defect, see
 `shared_result_counterexample`). -/
 def CEvOk (s : CState) : CEv → Prop
-  | .base e => Props.C05.EvOk e ∧ notMemmap e = true ∧ ∀ o, o ∈ mutated s.heap e → ¬ IsResult s o
+  | .base e => Props.C05.EvOk e ∧ ∀ o, o ∈ mutated s.heap e → ¬ IsResult s o
   | .read i _ => live s.heap i = true
   | .rebind i _ _ => ¬ IsResult s i
+  | .setAttr i _ _ d => ∀ j, j ∈ attrTargets s.heap d i → ¬ IsResult s j
+  | .memmap i _ => ∀ j, j ∈ attrTargets s.heap s.heap.size i → ¬ IsResult s j
 
 /-- **permitted operations keep every memoised entry equal to a fresh computation** — in-place writes, writes through
 members, lock / unlock cycles (accepted and refused), context managers, construction, garbage collection, guarded
-mutators, reads themselves, and the rebinding writes that are allowed under lock. -/
+mutators, reads themselves, the rebinding writes that are allowed under lock, metadata assignments and `memmap_`. -/
 theorem permitted_preserves (sem : Sem) (s : CState) (hinv : CInv sem s) (e : CEv) (hok : CEvOk s e) :
     CInv sem (cstep sem s e).1 := by
   cases e with
-  | base e => exact base_preserves sem s hinv e hok.1 hok.2.1 hok.2.2
+  | base e => exact base_preserves sem s hinv e hok.1 hok.2
   | read i q =>
     have hl : live s.heap i = true := hok
     have hi := lt_size_of_live hinv.inv hl
     simp only [cstep, hl, hi, decide_true, Bool.and_self, if_true]
     exact read_preserves sem s hinv i q hl
   | rebind i k obj => exact rebind_preserves sem s hinv i k obj hok
+  | setAttr i f v d =>
+    simp only [cstep]
+    split
+    · rename_i hg
+      simp only [Bool.and_eq_true, decide_eq_true_eq] at hg
+      exact attr_preserves sem s hinv i f v d hg.1 hok
+    · exact hinv
+  | memmap i news =>
+    by_cases hl : live s.heap i = true
+    · exact memmap_preserves sem s hinv i news hl hok
+    · simp only [cstep]
+      have : live s.heap i = false := by simpa using hl
+      simp [this]; exact hinv
 
 theorem cinv_empty (sem : Sem) : CInv sem { base := { heap := Heap.empty } } where
   inv := Props.C05.inv_empty
@@ -632,6 +689,94 @@ theorem shared_result_counterexample :
       bindings (s2.heap.node 1) = [("a", 100), ("new", 300)] ∧
       (demoSem.build q.sem (content s2.heap 0)).map (fun e => (e.1, e.2.1)) = [("a", 100)] := by
   decide
+
+/-- **a metadata assignment without `_erase_cache_up`** (the code before the `fix:` commits for `batch_size`, device and
+`_erase_names`): the locked tensordict keeps serving what it memoised before the attribute changed. With the repaired setter
+the same read is a miss that carries the new attribute (`attr_preserves` is the general statement). -/
+theorem attr_without_erase_counterexample :
+    let q : Query := { meth := 2, args := [] }
+    let s1 := (readEv demoSem lockedLeaf 0 q).1
+    let pinned : CState := { s1 with base := { s1.base with heap := s1.heap.upd 0 (fun n => { n with attrs := setField n.attrs 1 7 }) } }
+    let repaired := (cstep demoSem s1 (.setAttr 0 1 7 0)).1
+    (readEv demoSem pinned 0 q).2 = (.value [(["a"], .leaf 100)], .hit) ∧
+      freshValue demoSem pinned.heap 0 q = [([], .attr 1 7), (["a"], .leaf 100)] ∧
+      (readEv demoSem repaired 0 q).2 = (.value [([], .attr 1 7), (["a"], .leaf 100)], .miss) := by
+  decide
+
+def lockedPair : CState := crun demoSem { base := { heap := Heap.empty } }
+  [.base (.viaCtor [] [("a", 100, 0)] false), .base (.viaCtor [("n", 0)] [] true)]
+
+/-- **names erased from above** (`root.names = None` before the `fix:`): the setter of the root invalidates the root and walks
+down through `_erase_names`, which changed the attribute of the nested tensordict without touching its cache: the nested
+tensordict keeps serving its memoised read. Repaired: every tensordict visited runs `_erase_cache_up`. -/
+theorem erased_from_above_counterexample :
+    let q : Query := { meth := 2, args := [] }
+    let s1 := (readEv demoSem lockedPair 0 q).1
+    let walk (h : Heap) := (h.upd 1 (fun n => { n with attrs := setField n.attrs 1 0 })).upd 0 (fun n => { n with attrs := setField n.attrs 1 0 })
+    let pinned : CState := { base := { s1.base with heap := walk s1.heap }, cache := eraseUpF s1.heap.size s1.heap s1.cache 1 }
+    let repaired := (cstep demoSem s1 (.setAttr 1 1 0 1)).1
+    (readEv demoSem s1 0 q).2.2 = .hit ∧
+      (readEv demoSem pinned 0 q).2 = (.value [(["a"], .leaf 100)], .hit) ∧
+      freshValue demoSem pinned.heap 0 q = [([], .attr 1 0), (["a"], .leaf 100)] ∧
+      (readEv demoSem repaired 0 q).2 = (.value [([], .attr 1 0), (["a"], .leaf 100)], .miss) := by
+  decide
+
+def lockedOverStack : CState := crun demoSem { base := { heap := Heap.empty } }
+  [.base (.viaCtor [] [("a", 100, 0)] false), .base (.lazyOver [0] false), .base (.viaCtor [("l", 1)] [] true)]
+
+/-- **a lazy stack relies on the setters of its members**: its own setter resets the stack's cache only. If the members'
+setters are skipped (seeded change: "the names of the member are unchanged, nothing to invalidate"; or an empty stack,
+which has no member), renaming the stack dimension leaves the root of the locked tree with a stale entry. The modelled
+setter always walks into the members, whose `_erase_cache_up` climbs back through the stack to the root. -/
+theorem stack_dim_only_counterexample :
+    let q : Query := { meth := 2, args := [] }
+    let s1 := (readEv demoSem lockedOverStack 2 q).1
+    let pinned : CState := { base := { s1.base with heap := s1.heap.upd 1 (fun n => { n with attrs := setField n.attrs 0 9 }) },
+                             cache := eraseAt s1.cache 1 }
+    let repaired := (cstep demoSem s1 (.setAttr 1 0 9 3)).1
+    (readEv demoSem pinned 2 q).2.2 = .hit ∧
+      (readEv demoSem pinned 2 q).2.1 ≠ .value (freshValue demoSem pinned.heap 2 q) ∧
+      (readEv demoSem repaired 2 q).2.2 = .miss ∧
+      (readEv demoSem repaired 2 q).2.1 = .value (freshValue demoSem repaired.heap 2 q) := by
+  decide
+
+/-- **`memmap_` without `_erase_cache_up`** (the code before the `fix:`; also the seeded change "already memory-mapped: nothing
+to invalidate" for the move to another directory): the leaves are rebound, the memoised read still returns the old objects. -/
+theorem memmap_without_erase_counterexample :
+    let q : Query := { meth := 2, args := [] }
+    let s1 := (readEv demoSem lockedLeaf 0 q).1
+    let pinned : CState := { s1 with base := { s1.base with heap := s1.heap.upd 0 (fun n => { n with leaves := n.leaves.map (newLeaf [((0, "a"), 200)] 0) }) } }
+    let repaired := (cstep demoSem s1 (.memmap 0 [((0, "a"), 200)])).1
+    (readEv demoSem pinned 0 q).2 = (.value [(["a"], .leaf 100)], .hit) ∧
+      freshValue demoSem pinned.heap 0 q = [(["a"], .leaf 200)] ∧
+      (readEv demoSem repaired 0 q).2 = (.value [(["a"], .leaf 200)], .miss) := by
+  decide
+
+/-! ## the transcribed functions -/
+
+open TdVerif.Gen.CacheTable in
+/-- **the functions `Model/C06Cache.lean` transcribes are the ones it was transcribed from** (`cache`, `_make_cache_key`,
+`erase_cache`, `_erase_cache_up`, the metadata setters and what they call on the way down): fingerprints of their syntax trees,
+regenerated from the source on every run. An edit of any of them breaks this obligation. -/
+theorem transcribed_cache_code : cacheCode = [
+    ("tensordict/utils.py", "cache", "def", 150685775575764),
+    ("tensordict/utils.py", "_make_cache_key", "def", 186837335423253),
+    ("tensordict/utils.py", "erase_cache", "def", 239106187870284),
+    ("tensordict/base.py", "TensorDictBase._erase_cache", "def", 190181464572807),
+    ("tensordict/base.py", "TensorDictBase._erase_cache_up", "def", 49411097632057),
+    ("tensordict/base.py", "TensorDictBase._batch_size_setter", "def", 155495785227950),
+    ("tensordict/base.py", "TensorDictBase.clear_device_", "def", 171375968971322),
+    ("tensordict/base.py", "TensorDictBase._set_device", "def", 38923840367939),
+    ("tensordict/base.py", "TensorDictBase.auto_device_", "def", 55593694086078),
+    ("tensordict/_td.py", "TensorDict.names", "setter", 256541085177609),
+    ("tensordict/_td.py", "TensorDict._erase_names", "def", 114851756678430),
+    ("tensordict/_td.py", "TensorDict._rename_subtds", "def", 105382731557165),
+    ("tensordict/_lazy.py", "LazyStackedTensorDict.names", "getter", 269035792762992),
+    ("tensordict/_lazy.py", "LazyStackedTensorDict.names", "setter", 234113662859993),
+    ("tensordict/_lazy.py", "LazyStackedTensorDict._erase_names", "def", 152738123587569),
+    ("tensordict/_lazy.py", "LazyStackedTensorDict._rename_subtds", "def", 67788134349883),
+    ("tensordict/_lazy.py", "LazyStackedTensorDict.clear_device_", "def", 151305357075050)] := by
+  decide +kernel
 
 /-! ## the table regenerated from the source -/
 
